@@ -20,6 +20,8 @@ pub struct GenCfg {
     pub avoid: Vec<String>,
     /// put discarded effectful bindings into the program (C04)
     pub discard_bias: bool,
+    /// no `type` declarations (the result type then only mentions built-in types)
+    pub no_decls: bool,
 }
 
 impl Default for GenCfg {
@@ -33,6 +35,7 @@ impl Default for GenCfg {
             allow_fun_result: false,
             avoid: vec![],
             discard_bias: false,
+            no_decls: false,
         }
     }
 }
@@ -67,6 +70,11 @@ pub struct Gen<'t, 'a> {
 const FIELD_POOL: &[&str] = &["a", "b", "c", "x", "y", "z", "w", "u", "k", "m"];
 
 pub fn gen_program(t: &mut Tape, cfg: GenCfg) -> Program {
+    gen_program_with(t, cfg, &[])
+}
+
+/// `outer`: variables already in scope (e.g. imported modules) with their types
+pub fn gen_program_with(t: &mut Tape, cfg: GenCfg, outer: &[(String, Ty)]) -> Program {
     let mut g = Gen {
         t,
         decls: vec![],
@@ -80,10 +88,16 @@ pub fn gen_program(t: &mut Tape, cfg: GenCfg) -> Program {
         allow_record_pat: true,
         excluded_second_record_pattern: 0,
     };
-    g.gen_decls();
+    if !g.cfg.no_decls {
+        g.gen_decls();
+    }
     let ty = g.gen_ty(2, g.cfg.allow_fun_result);
     let size = g.cfg.max_size;
-    let body = g.tm(&ty, &vec![], size);
+    let scope: Scope = outer
+        .iter()
+        .map(|(n, t)| SVar { name: n.clone(), ty: t.clone() })
+        .collect();
+    let body = g.tm(&ty, &scope, size);
     let body = g.wrap_poly(body);
     let mut p = Program {
         decls: g.decls.clone(),
@@ -387,8 +401,16 @@ impl<'t, 'a> Gen<'t, 'a> {
             Ty::Float => Num::Float,
             _ => Num::Byte,
         };
-        let ops = [Op::Add, Op::Sub, Op::Mul, Op::Div];
-        let op = *self.t.choose(&ops);
+        if !self.cfg.allow_fail && num == Num::Byte {
+            // Byte arithmetic overflows too easily for programs that must not fail
+            return self.leaf_or_var(ty, sc);
+        }
+        let ops: &[Op] = if self.cfg.allow_fail || num == Num::Float {
+            &[Op::Add, Op::Sub, Op::Mul, Op::Div]
+        } else {
+            &[Op::Add, Op::Sub]
+        };
+        let op = *self.t.choose(ops);
         let a = self.inl(ty, sc, size / 2);
         let b = self.inl(ty, sc, size / 2);
         let hash = self.use_hash(num);
